@@ -57,7 +57,8 @@ class ChildCtx:
     def normal_exit(self):
         # What a clean interpreter shutdown does for user-visible state: flush buffered files.
         try:
-            for obj in gc.get_objects(generation=0) + gc.get_objects(generation=1):
+            objs = gc.get_objects() if getattr(self, 'full_flush', False) else gc.get_objects(generation=0) + gc.get_objects(generation=1)
+            for obj in objs:
                 try:
                     if isinstance(obj, (io.BufferedWriter, io.TextIOWrapper, io.BufferedRandom)) and not obj.closed:
                         obj.flush()
